@@ -718,7 +718,7 @@ func runC17(r *Rng, n int) {
 	}
 	c17Stress(r, 8, 400+n*4)
 	// free-running concurrent cases on ONE context, each in a child process (contextheap_conc.go)
-	for kind := 0; kind < 3; kind++ {
+	for kind := 0; kind < 4; kind++ {
 		c17ConcGen(r, kind, 4000+n*20)
 	}
 }
@@ -912,7 +912,7 @@ func c17Stress(r *Rng, goroutines, iters int) bool {
 				defer wg.Done()
 				defer func() {
 					if p := recover(); p != nil {
-						problems[g] = append(problems[g], "panic: "+clip(fmt.Sprint(p)))
+						problems[g] = append(problems[g], "panic: "+c17Clip(fmt.Sprint(p)))
 					}
 				}()
 				bad := func(f string, a ...interface{}) {
@@ -1067,7 +1067,7 @@ func runC17Race(r *Rng, n int) {
 			break // goroutines of a failed round may be stuck for ever; do not pile up more
 		}
 	}
-	for kind := 0; kind < 3; kind++ { // the child is this (-race) binary: a race report ends it with exit 66
+	for kind := 0; kind < 4; kind++ { // the child is this (-race) binary: a race report ends it with exit 66
 		c17ConcGen(r, kind, 1500+n)
 	}
 	for i := 0; i < 50; i++ {
